@@ -721,5 +721,7 @@ def run_corpus(chk):
     for c in json.loads(p.read_text()).get("cases", []):
         kind, case = c["kind"], c["case"]
         chk.count("corpus", kind)
-        {"brew-options": options_case, "rollup-tool": rollup_tool_case, "cli-pipeline": pipeline_case}[kind](
+        import c04ties
+        {"brew-options": options_case, "rollup-tool": rollup_tool_case, "cli-pipeline": pipeline_case,
+         "tied-ranking": c04ties.ties_case, "tied-level-file": c04ties.ties_file_case}[kind](
             chk, chk.rng, case=case)
